@@ -49,8 +49,8 @@ THEOREMS = {
     ]],
     "C19": [_T + n for n in _COMMON + [
         "cleanBucket_refines", "rehashN_refines", "keyed_refines", "resize_refines", "shrink_refines",
-        "lkstep_sim", "keyed_link_cost_and_progress", "settled_link_single_call", "history_trace",
-        "history_refines",
+        "lkstep_sim", "keyed_link_cost_and_progress", "settled_link_single_call", "lkrun_sim",
+        "rehash_finishes_link", "history_trace", "history_refines",
     ]],
     "C17": [_T + n for n in ("history_refines", "history_failstop", "history_total_in_range")],
 }
@@ -136,8 +136,8 @@ def link_level_run(chk, c_exe=None):
     """Pointer-level part of C03 / C04 / C19 (and C17b): axiom audit of the refinement theorems,
     translator tie, and exact correspondence (results, offers, visit order, hash-call log,
     relocation count, allocation events, chains in order with keys, clean bits, scalars) between
-    the real code and `m_hashl` on the corpus, the closure of the hash area's quick scope, boundary
-    bucket counts and seeded random histories over two tables.  Records into `chk`; does not call
+    the real code and `m_hashl` on the corpus, a small-scope closure (every operation of the hash area's
+    alphabet from every canonical state), boundary bucket counts and seeded random histories over two tables.  Records into `chk`; does not call
     chk.finish().  Returns False if nothing could be run."""
     import vlib
     me = sys.modules[__name__]
@@ -160,24 +160,34 @@ def link_level_run(chk, c_exe=None):
         return True
     vlib.run_scripts(chk, me, c_exe, m_exe, corpus(prop), oracle)
     vlib.run_scripts(chk, me, c_exe, m_exe, H.boundary_scripts(), oracle)
-    elems, counts, fns, max_states = H.scope("quick") if chk.tier == "quick" else H.scope("thorough", 0)
-    states0 = chk.stats["states"]
-    closed = vlib.closure(chk, NAME, c_exe, m_exe, H.closure_init(elems), H.make_alphabet(elems, counts, fns, prop),
+    # quick: 3 elements over 2 keys, bucket counts 1-2, 2 functions (1 034 states, closes); thorough: the
+    # hash area's quick scope (3 418 states) and its first thorough scope
+    if chk.tier == "quick":
+        scopes = [({1: 1, 2: 1, 3: 2}, (1, 2), (1, 2), 10 ** 6)]
+    else:
+        scopes = [H.scope("quick"), H.scope("thorough", 0)]
+    notes = []
+    closed = True
+    for (elems, counts, fns, max_states) in scopes:
+        states0 = chk.stats["states"]
+        ok = vlib.closure(chk, NAME, c_exe, m_exe, H.closure_init(elems), H.make_alphabet(elems, counts, fns, prop),
                           200, max_states, oracle)
-    nstates = chk.stats["states"] - states0
+        nstates = chk.stats["states"] - states0
+        closed = closed and bool(ok)
+        notes.append("elements->keys %s, bucket counts %s, hash ids %s: %d states, closed=%s"
+                     % (elems, list(counts), list(fns), nstates, bool(ok)))
     # own random stream: does not disturb the histories the functional check draws from chk.rng
     rng = random.Random((chk.seed << 12) ^ {"C03": 0x1a03, "C04": 0x1a04, "C19": 0x1a19}.get(prop, 0x1a00))
     if chk.tier == "quick":
-        rnd = H.random_scripts(rng, 16, 300) + H.random_scripts(rng, 24, 120, nkeys=6, maxn=6, nelem=24)
+        rnd = H.random_scripts(rng, 60, 300) + H.random_scripts(rng, 100, 120, nkeys=6, maxn=6, nelem=24)
     else:
-        rnd = H.random_scripts(rng, 150, 600) + H.random_scripts(rng, 300, 150, nkeys=6, maxn=6, nelem=24)
+        rnd = H.random_scripts(rng, 300, 600) + H.random_scripts(rng, 600, 150, nkeys=6, maxn=6, nelem=24)
     vlib.run_scripts(chk, me, c_exe, m_exe, rnd, oracle)
     chk.extra["link_level"] = {
         "model": "lean/Cstl/HashL/Model.lean (one update per C assignment on next / key / head / clean-bit memories; "
                  "driver m_hashl dumps by walking the links)",
-        "scope": "corpus incl. pointer-level cases; boundary bucket counts; closure elements->keys %s, bucket counts %s, "
-                 "hash ids %s: %d states, closed=%s; %d seeded random histories over two tables with swap"
-                 % (elems, list(counts), list(fns), nstates, bool(closed), len(rnd)),
+        "scope": "corpus incl. pointer-level cases; boundary bucket counts; closures: %s; %d seeded random histories "
+                 "over two tables with swap" % ("; ".join(notes), len(rnd)),
         "mismatches": len(chk.mismatches) - n_mis,
     }
     if len(chk.mismatches) > n_mis:
